@@ -98,6 +98,36 @@ def crafted_problem():
     return pr
 
 
+def crafted_numeric_readers_problem():
+    """instances that only READ a numeric fluent (in a precondition, or copying its value) next to instances that increase / decrease /
+    assign it: a reader followed by a cumulative writer must stay before it, although the writer 'also reads' the fluent"""
+    from unified_planning.shortcuts import Problem, Fluent, BoolType, IntType, UserType, Object, InstantaneousAction, GE
+    pr = Problem("crafted_deorder_numeric_readers")
+    C = UserType("C")
+    c1, c2 = Object("c1", C), Object("c2", C)
+    pr.add_objects([c1, c2])
+    n, cp, ok = Fluent("n", IntType(0, 6)), Fluent("cp", IntType(0, 6)), Fluent("ok", BoolType())
+    cnt = Fluent("cnt", IntType(0, 6), c=C)
+    pr.add_fluent(n, default_initial_value=1)
+    pr.add_fluent(cp, default_initial_value=0)
+    pr.add_fluent(ok, default_initial_value=False)
+    pr.add_fluent(cnt, default_initial_value=3)
+    check = InstantaneousAction("check")
+    check.add_precondition(GE(n, 1))
+    check.add_effect(ok, True)
+    snapshot = InstantaneousAction("snapshot", c=C)
+    snapshot.add_effect(cp, cnt(snapshot.parameter("c")))
+    tick = InstantaneousAction("tick", c=C)
+    tick.add_increase_effect(cnt(tick.parameter("c")), 1)
+    burn = InstantaneousAction("burn")
+    burn.add_decrease_effect(n, 1)
+    refill = InstantaneousAction("refill")
+    refill.add_effect(n, 2)
+    for a in (check, snapshot, tick, burn, refill):
+        pr.add_action(a)
+    return pr
+
+
 def crafted_invariant_problem():
     """state invariants couple fluents that no single action reads: `not p(x) or q` -- an instance writing p(x) and one writing q touch
     different fluents, yet their relative order decides whether the invariant holds in between"""
@@ -140,6 +170,7 @@ def bounded(tier, seed):
     def problem_stream():
         yield "crafted", crafted_problem()
         yield "crafted-invariant", crafted_invariant_problem()
+        yield "crafted-numeric-readers", crafted_numeric_readers_problem()
         yield from SC.problems(seed + 41, nprob, features=feats)
     for s, pr in problem_stream():
         gas = seqsem.ground_actions(pr)
